@@ -35,6 +35,8 @@ structure Tables where
   filters : List Nat                              -- filter visitor types registered in the context, in order
   base : Nat
   root : Nat                                      -- type of the visitor parseCypher pushes first (QueryVisitor)
+  /-- (visitor type, rule): EnterOC_<rule> of a visitor other than BaseVisitor that unconditionally reports "rule is not supported" -/
+  unsupM : List (Nat × Nat) := []
 
 structure St where
   stack : List Frame      -- head = top of Context.visitorStack
@@ -239,6 +241,16 @@ def Tables.reachesL (T : Tables) : List Tree → Bool
   | [] => false
   | t :: ts => T.reaches t || T.reachesL ts
 end
+
+/-- certificate that an error-free, syntactically complete tree rooted at `path.head` assigns the root result: along
+`path` the root visitor pushes nothing, and for each step some mandatory-children clause of the grammar leaves, besides
+rules that report an error on entry (`direct`), only the next rule of the path; the last rule assigns the result. -/
+def Tables.chainOK (T : Tables) (direct : Nat → Bool) (must : List (List (List Nat))) : List Nat → Bool
+  | [] => false
+  | [r] => T.setsRoot r
+  | p :: c :: rest =>
+    (T.enterActs T.root p).isEmpty && (must.getD p []).any (fun clause => clause.all (fun x => x == c || direct x)) &&
+    T.chainOK direct must (c :: rest)
 
 /-- strings.TrimSpace(input) is empty -/
 def blankInput (s : String) : Bool := goBlank s
